@@ -12,7 +12,7 @@ ANCHORS = [('poly.py', 'SubPoly.__and__'), ('poly.py', 'SubPoly.__or__'), ('poly
            ('poly.py', 'SubPoly.e'), ('poly.py', 'Poly.__getitem__'), ('poly.py', 'SubPoly.__setitem__'), ('poly.py', 'SubPoly.indices'),
            ('poly.py', 'SubPoly.span'), ('poly.py', 'SubPoly.__floordiv__'), ('poly.py', 'SubPoly.split'), ('poly.py', 'SubPoly.dim')]
 REQUIRED = ['op:+', 'op:-', 'op:^', 'op:&', 'op:|', 'op:neg', 'op:<<', 'op:>>', 'law:a+(-a)==0', 'commutes', 'getitem', 'setitem', 'concat',
-            'split', 'pack', 'operand-unchanged', 'empty-stays-empty']
+            'split', 'pack', 'operand-unchanged', 'empty-stays-empty', 'history:read', 'history:write', 'history:redim']
 NSHARDS = 13
 SAN = {'quick': (3, 8), 'thorough': (3, 4)}
 S3_EVERY = 50
@@ -56,6 +56,8 @@ def cases(tier, rng):
         chunk = 4 if k < 3 else 2
         for i in range(0, len(V), chunk):
             yield {'k': 'pairs', 'ring': k, 'dmax': dmax, 'lo': i, 'hi': min(len(V), i + chunk)}
+    for j in range(600 if tier == 'quick' else 12000):
+        yield {'k': 'history', 'ring': [1, 2, 3, 8, 32, 0][j % 6], 'steps': 2 + j % 9, 'j': j}
     ns = 3000 if tier == 'quick' else 60000
     rings = [0, 4, 8, 16, 31, 32, 33, 64, 5, 63]
     for j in range(ns):
@@ -173,6 +175,47 @@ def run_pairs(case, ctx, rng):
         for b in V:
             binary(ctx, P, a, b, k); cnt += 1
     ctx.exhaustive['binary operators on all ordered pairs of dim 0..%d over Z/2^%d' % (case['dmax'], k)] += cnt
+
+def run_history(case, ctx, rng):
+    """one vector used through a sequence of reads, slice/list assignments and re-dimensionings; compared with the list
+    model after every step (an index expression must be resolved against the *current* dimension each time)"""
+    from crysp.poly import Poly as P
+    k = case['ring']
+    n = rng.randrange(1, 7)
+    a = fill(rng, n, k, 0)
+    A = mk(P, a, k)
+    ctx.cls(('history', k, min(case['steps'], 5)))
+    log = []
+    slices = [slice(1, None), slice(None), slice(-1, None), slice(None, None, 2), slice(0, 2), slice(None, -1), slice(1, None, 2), slice(-2, None)]
+    for step in range(case['steps']):
+        op = rng.choice(['read', 'read', 'write', 'dim', 'dim', 'setint', 'concat-assign'])
+        n = len(a)
+        ok_slices = [x for x in slices if x.stop is None or x.stop <= n]        # slices stay within the vector (see DESIGN: crysp zero-extends past the end)
+        if op == 'read':
+            sl = rng.choice(ok_slices)
+            want = a[sl]
+            got = call(lambda: A[sl]); log.append('read a[%s]' % (sl,))
+            same(ctx, 'history:read', got, want, k, log=log[-6:], start=case['j'])
+        elif op == 'write':
+            sl = rng.choice(ok_slices)
+            sel = list(range(n))[sl]
+            if not sel: continue
+            vals = [red(rng.getrandbits(k or 9), k) for _ in sel]
+            r = call(A.__setitem__, sl, list(vals)); log.append('a[%s]=%s' % (sl, vals))
+            for p_, v in zip(sel, vals): a[p_] = v
+            same(ctx, 'history:write', A if not is_exc(r) else r, a, k, log=log[-6:])
+        elif op == 'dim':
+            m = rng.choice([max(1, n - 1), n + 1, n + 3, max(1, n - 2), n])
+            r = call(setattr, A, 'dim', m); log.append('dim=%d' % m)
+            a = (a + [0] * m)[:m]
+            same(ctx, 'history:redim', A if not is_exc(r) else r, a, k, log=log[-6:])
+        elif op == 'setint':
+            i = rng.randrange(-n, n); v = red(rng.getrandbits(k or 9), k)
+            r = call(A.__setitem__, i, v); a[i] = v; log.append('a[%d]=%d' % (i, v))
+            same(ctx, 'history:write', A if not is_exc(r) else r, a, k, log=log[-6:])
+        else:
+            L = [rng.randrange(n) for _ in range(rng.randrange(1, 4))]
+            same(ctx, 'history:read', call(lambda: A[L]), [a[i] for i in L], k, log=log[-6:] + ['read a[%s]' % L])
 
 def fill(rng, n, k, pat):
     kk = k or 70
